@@ -282,7 +282,7 @@ def run(ctx):
 
 
 MANIFEST_ENTRY = {
-    "technique": "static analysis: MIR return-value / effect summaries with closures inlined (py/mirsum.py) of every I18nContext accessor and of init_context_inner, abstract evaluation (rules/absint.py) of the t! expansion (the context read sits inside the emitted closure in all four expansions), MIR owner discipline of run_as_children; MIR path enumeration of every sub-context constructor (each path returns a freshly built context); abstract evaluation of t_format_inner / t_plural_inner with the generated block read back (rules/reactmacros.py: the locale is read inside the returned closure)",
+    "technique": "static analysis: MIR return-value / effect summaries with closures inlined (py/mirsum.py) of every I18nContext accessor and of init_context_inner, abstract evaluation (rules/absint.py) of the t! expansion (the context read sits inside the emitted closure in all four expansions), MIR owner discipline of run_as_children; MIR path enumeration of every sub-context constructor (each path returns a freshly built context); abstract evaluation of t_format_inner / t_plural_inner with the generated block read back (rules/reactmacros.py: the locale is read inside the returned closure); abstract evaluation of init_context_inner over a model of cells and effects (first-pass timing, tracked reads, effect lifetime; rules/localeeval.py); the macro entry-point table (rules/entrytable.py: each t*/tu*/td* macro passes the selectors its name says, the wrappers hand them on unchanged); MIR who-reads-the-ambient-context",
     "level_text": "Structural clauses only: there is a single place where a context's locale lives and every accessor goes to it; the reactive closure emitted by t! contains the read; each context is built around its own new signal and reads its parent once, untracked. Histories over a live reactive graph are not applicable to static analysis and are not claimed.",
     "level_note": "Trusted: leptos signal semantics. Not decided / not applicable: behaviour over operation sequences.",
 }
